@@ -288,6 +288,10 @@ def St.evalStat (st : St) (fi s : Nat) (col : String) : String :=
             | some (mn, mnT), some (mx, mxT) =>
               s!"st {s.count} {s.sum} {mn} {mnT} {mx} {mxT}"
             | _, _ => s!"st {s.count} - - - - -"
+          else if col == "fb" then
+            match s.min, s.max with
+            | some (mn, mnT), some (mx, mxT) => s!"st {s.count} {mn} {mnT} {mx} {mxT}"
+            | _, _ => s!"st {s.count} - - - -"
           else s!"st {s.count}"
 
 def parseQuery (f : List String) : Option Query :=
